@@ -16,6 +16,8 @@ fn main() -> Result<(), String> {
             ui::terminal::run_file(&filename)
         },
         Some("--gui")  => ui::gui::run(),
+        #[cfg(picilisp_verif)]
+        Some("--verif-driver") => verif::run(),
         Some("--help") => {
             println!("{}", usage());
             Ok(())
@@ -45,3 +47,5 @@ mod config;
 mod ui;
 mod io;
 mod debug;
+#[cfg(picilisp_verif)]
+mod verif;
